@@ -107,11 +107,22 @@ static std::string sb_name(const void* p)
   return it == sb_by_ptr.end() ? "?" : it->second;
 }
 
+// address the backend uses to invoke tree_fn in each sandbox (what an INVOKE notification carries)
+static const void* expected_invoke_ptr[2] = { nullptr, nullptr };
+
 namespace hk {
 void hook(const char* dir, int kind, const char* name, void* ptr, void* state)
 {
   tr::Ev e("hook");
   e.str("dir", dir).str("kind", kind == 0 ? "INVOKE" : "CALLBACK");
+  if (kind == 0) {
+    // the function identity of an invocation: the same address every time this function is invoked
+    bool okp = false;
+    for (int i = 0; i < 2; i++) {
+      okp = okp || (expected_invoke_ptr[i] != nullptr && ptr == expected_invoke_ptr[i]);
+    }
+    e.boolean("ptrok", okp);
+  }
   std::string who = "?";
   if (kind == 0) {
     who = name ? name : "null";
@@ -409,6 +420,19 @@ int main(int argc, char** argv)
 #else
         sb[i]->create_sandbox();
 #endif
+#if defined(BK_VM)
+        expected_invoke_ptr[i] = sb[i]->get_sandbox_impl()->table[sb[i]->get_sandbox_impl()->func_index("tree_fn")].fn;
+#elif defined(BK_DYLIB)
+        {
+          void* h = dlopen(argv[3 + (i % 2)], RTLD_NOW | RTLD_NOLOAD);
+          expected_invoke_ptr[i] = h ? dlsym(h, "tree_fn") : nullptr;
+          if (h) {
+            dlclose(h);
+          }
+        }
+#else
+        expected_invoke_ptr[i] = reinterpret_cast<const void*>(&tree_fn);
+#endif
         sb[i]->set_transition_state((void*)SB_NAMES[i]); // same literal as LABELS[i][0] (merged by the compiler)
         sb[i]->clear_transition_times();
         sb_by_ptr[sb[i].get()] = SB_NAMES[i];
@@ -425,6 +449,19 @@ int main(int argc, char** argv)
 #else
       e.str("tls", "library");
 #endif
+      out.put(e);
+    } else if (op == "fnaddr") {
+      // the application takes the address of the sandbox function (another lookup, another cache)
+      int si = sb_idx(a1);
+      tr::Ev e("fnaddr");
+      e.str("s", a1);
+      try {
+        auto fp = sb[si]->get_sandbox_function_address(tree_fn);
+        (void)fp;
+        e.str("out", "ok");
+      } catch (const std::runtime_error&) {
+        e.str("out", "abort");
+      }
       out.put(e);
     } else if (op == "recreate") {
       // destroy and re-create the sandbox object while the owners of its callbacks stay alive
